@@ -163,6 +163,10 @@ impl Registry {
     fn injected(&self) -> Option<io::Error> {
         unsafe { (*self.fail_next.get()).take().map(io::Error::from_raw_os_error) }
     }
+    /// Model-only: overwrite row `i` of the interest list (lets a harness build an arbitrary OS state without branching).
+    pub fn verif_set_slot(&self, i: usize, r: Option<Registration>) {
+        self.table()[i] = r;
+    }
     /// Model-only: the current registration of `fd`.
     pub fn verif_lookup(&self, fd: i32) -> Option<Registration> {
         self.find(fd).and_then(|i| self.table()[i])
